@@ -174,3 +174,51 @@ fn c17_server_does_not_reuse_a_nonce_between_handshake_and_session() {
         }
     }
 }
+
+/// connect-token bytes with explicit address records: 0 = a record of type NONE (one byte), 4 = IPv4 record, 6 = IPv6 record
+fn token_bytes_with_records(count: u32, records: &[u8]) -> Vec<u8> {
+    let mut b = Vec::new();
+    b.extend_from_slice(&1u64.to_le_bytes());
+    b.extend_from_slice(b"NETCODE 1.02\0");
+    b.extend_from_slice(&7u64.to_le_bytes());
+    b.extend_from_slice(&0u64.to_le_bytes());
+    b.extend_from_slice(&100u64.to_le_bytes());
+    b.extend_from_slice(&[0u8; 24]);
+    b.extend_from_slice(&[0u8; 1024]);
+    b.extend_from_slice(&15i32.to_le_bytes());
+    b.extend_from_slice(&count.to_le_bytes());
+    for (i, r) in records.iter().enumerate() {
+        match r {
+            0 => b.push(0),
+            4 => {
+                b.push(1);
+                b.extend_from_slice(&[10, 0, 0, i as u8]);
+                b.extend_from_slice(&5000u16.to_le_bytes());
+            }
+            _ => {
+                b.push(2);
+                b.extend_from_slice(&[i as u8; 16]);
+                b.extend_from_slice(&5000u16.to_le_bytes());
+            }
+        }
+    }
+    b.extend_from_slice(&[3u8; 32]);
+    b.extend_from_slice(&[4u8; 32]);
+    b
+}
+
+/// C16 (U20 read_server_addresses.decoded_list_is_dense): a byte string that decodes must re-encode to bytes that decode to the same value.
+/// An address record of type 0 (NONE) leaves a hole in the decoded list; `write` closes the hole, so the second decoding differs from the first.
+#[test]
+fn c16_token_bytes_that_decode_reencode_to_the_same_token() {
+    let bytes = token_bytes_with_records(2, &[0, 4]);
+    let first = match ConnectToken::read(&mut std::io::Cursor::new(&bytes[..])) {
+        Err(_) => return, // refusing such bytes is fine
+        Ok(t) => t,
+    };
+    let mut again = Vec::new();
+    first.write(&mut again).unwrap();
+    let second = ConnectToken::read(&mut std::io::Cursor::new(&again[..])).unwrap();
+    assert_eq!(first.server_addresses, second.server_addresses);
+    assert_eq!(first, second);
+}
